@@ -33,9 +33,15 @@ def orders_for(a, b, tier):
     return [(4, 4), (6, 6), (8, 8), (10, 10), (12, 12)]
 
 
-def first_eigs(pd, N, kind):
+def first_eigs(pd, N, kind, panel=None):
+    """first eigenvalue for the definition; with `panel` the definition is put on that existing object
+    (a convergence / parameter study on ONE Panel)"""
     from compmech.analysis import lb, freq
-    p = panelmat.build_panel(pd)
+    if panel is None:
+        p = panelmat.build_panel(pd)
+    else:
+        p = panel
+        panelmat.redefine(p, pd)
     k0 = p.calc_k0(silent=True)
     if kind == "buckling":
         p.Nxx, p.Nyy, p.Nxy = N
@@ -158,8 +164,13 @@ def run(tier, seed, build):
         # every second sequence with force_orthotropic_laminate on: these laminates are specially orthotropic already,
         # so the switch must change nothing
         flag = dict(ortho=True) if ks % 2 == 1 else {}
-        for (m, n) in orders:
-            vals.append(first_eigs(dict(pd_for(model, a, b, m, n, dirs, t), **flag), N, kind))
+        # every third sequence is a study on one re-used Panel object, with a detour through another aspect ratio at
+        # the last order before it is evaluated (nothing of an earlier definition may survive)
+        one = panelmat.build_panel(dict(pd_for(model, a, b, orders[0][0], orders[0][1], dirs, t), **flag)) if ks % 3 == 0 else None
+        for ko, (m, n) in enumerate(orders):
+            if one is not None and ko == len(orders) - 1:
+                first_eigs(dict(pd_for(model, Fraction(3, 2) * Fraction(a), b, m, n, dirs, t), **flag), N, kind, panel=one)
+            vals.append(first_eigs(dict(pd_for(model, a, b, m, n, dirs, t), **flag), N, kind, panel=one))
         eps = cal[case_key(a, b, dirs, kind, N, t)]["eps"]
         events.append(dict(ev="seq", id=len(events), pd=dict(pd_for(model, a, b, orders[-1][0], orders[-1][1], dirs, t), **flag),
                            kind=kind, N=[rat(Fraction(x)) for x in N], orders=[list(o) for o in orders],
